@@ -550,10 +550,16 @@ func resolveDisableMap(r Exp, v map[string]Exp, disable []Exp) ([]Exp, error) {
 			return resolveDisableExp(e, disable)
 		}
 	}
+	// In key order, so that the same entry is blamed every time.
+	keys := make([]string, 0, len(v))
+	for k := range v {
+		keys = append(keys, k)
+	}
+	sort.Strings(keys)
 	allFalse := true
 	allTrue := true
-	for _, e := range v {
-		switch e := e.(type) {
+	for _, k := range keys {
+		switch e := v[k].(type) {
 		case *RefExp, *NullExp:
 			allTrue = false
 			allFalse = false
@@ -576,9 +582,7 @@ func resolveDisableMap(r Exp, v map[string]Exp, disable []Exp) ([]Exp, error) {
 		return disable, nil
 	}
 	if allTrue {
-		for _, e := range v {
-			return []Exp{e}, nil
-		}
+		return []Exp{v[keys[0]]}, nil
 	}
 	result := make([]Exp, len(disable), len(disable)+1)
 	copy(result, disable)
